@@ -134,8 +134,12 @@ class ServerApp:
         if rec is None:
             return
         f = self._fault_for('disconnect', rec['n'], sid)
-        if f:
-            self._apply_sync(f, sid, rec)
+        try:
+            if f:
+                self._apply_sync(f, sid, rec)
+        finally:
+            rec['seq_end'] = self.k.seq
+            rec['t_end'] = self.k.now
 
     def _apply_sync(self, f, sid, rec):
         act = f.get('action')
@@ -174,8 +178,12 @@ class ServerApp:
         if rec is None:
             return
         f = self._fault_for('disconnect', rec['n'], sid)
-        if f:
-            await self._apply_async(f, sid, rec)
+        try:
+            if f:
+                await self._apply_async(f, sid, rec)
+        finally:
+            rec['seq_end'] = self.k.seq
+            rec['t_end'] = self.k.now
 
     async def _apply_async(self, f, sid, rec):
         act = f.get('action')
